@@ -64,12 +64,20 @@ static int verif_isatty(int fd) { (void)fd; return 0; }
 #define pthread_cond_broadcast(c) 0
 #define pthread_cond_wait(c, m) (CUT(), 0)
 #define pthread_join(t, r) 0
-#define pthread_create(t, a, f, x) (threads_created++, 0)
+static void verif_on_create(void);
+#define pthread_create(t, a, f, x) (verif_on_create(), 0)
 
 #include "process.c"           /* the real /repo/src/process.c */
 
 #undef read
 #undef write
+
+/* state of the shared flags at the moment the first I/O thread is started */
+static bool snap_eof, snap_finish, snap_close; static unsigned snap_in, snap_out, snap_total;
+static void verif_on_create(void)
+{
+  if (threads_created++ == 0) { snap_eof = eof; snap_finish = finish; snap_close = request_close; snap_in = in_slots; snap_out = out_slots; snap_total = total_out_slots; }
+}
 
 /* ---- main.c / signals.c / codec entry points that process.c links against ---- */
 unsigned num_worker; size_t max_mem; bool decompress; unsigned bs100k = 9; bool force, keep, verbose, print_cctrs, small, ultra;
@@ -224,6 +232,10 @@ void h_sniff(void)
   ospec.fd = (IN.outfd % 3 == 0) ? 1 : (IN.outfd % 3 == 1) ? 7 : -1;     /* stdout, a file, discard */
   bs100k = 9;
   process = 0; H = H_SNIFF;
+  /* operand kind: stdin or an opened FILE operand whose fstat() size is arbitrary (FIFOs and devices report 0);
+     stale state of a previous operand in the same process */
+  ispec.fd = (IN.level & 1) ? 0 : 5; ispec.size = IN.workers;
+  eof = true; finish = true; request_close = true;
   RUN_CUT(work());
   if (fail_seen) return;
   PROP(!any_read_error() && !any_write_error(), "a failing read()/write() never returns control (C21)");
@@ -241,7 +253,8 @@ void h_sniff(void)
     PROP(process != &expansion && process != &compression && in_granul == 65536, "copy pipeline is started");
     PROP(sink_len == hdr, "the sniffed bytes are written first, all of them, once");
     for (i = 0; i < 4; i++) PROP(i >= hdr || sink[i] == IN.src[i], "sniffed bytes are passed through unchanged");
-    PROP(threads_created == 2 && halted == 1, "reader and writer threads are started and awaited");
+    PROP(threads_created == 2 && halted == 1, "reader and writer threads are started and awaited, whatever the operand's reported size (C19)");
+    PROP(!snap_eof && !snap_finish && !snap_close && snap_in == 2 && snap_out == 2 && snap_total == 2, "the copy threads start from a clean state (nothing left over from a previous operand)");
   } else {
     PROP(0, "non-bzip2 input that is not copied must be rejected (work() returned normally)");
   }
